@@ -78,8 +78,8 @@ def run(check, an: Analysis):
         out = path.kind if path.kind != 'raise' else 'raise ' + \
             path.outcome[1].cls.rsplit('.', 1)[-1]
         exits.setdefault((out, same), path)
-    if not n_add:
-        raise AnalysisError('Pipe.transfer never subscribes')
+    check.instance('P', 'transfer:subscribes', n_add > 0, where_fn(fn),
+                   'a transfer registers its share')
     for (out, ok), path in sorted(exits.items(), key=lambda kv: repr(kv[0])):
         check.instance('P', 'transfer:exit=%s' % out, ok, where_fn(fn),
                        'the share registered by _add_subscriber is removed exactly once '
@@ -125,8 +125,8 @@ def run(check, an: Analysis):
                                event.where,
                                'a changed scale wakes every transfer to re-plan',
                                path=rules.path_lines(path, index))
-    if n_scale < 2:
-        raise AnalysisError('_throttle_subscribers: scale stores not found')
+    check.instance('K', 'scale-store:both-branches', n_scale >= 2, where_fn(throttle.fn),
+                   'the scale is set on the congested and on the relaxed branch')
     for fn2, stmt, target, recvs in rules.attribute_stores(an, '_throughput_scale', PIPE):
         ok = fn2.name in ('__init__', '_throttle_subscribers')
         check.instance('K', 'writer:_throughput_scale:%s' % short(fn2.qn), ok,
